@@ -394,12 +394,12 @@ def rewrite_after_mutation_cases(ctx):
     from flow.record import GroupedRecord, RecordDescriptor
     from flow.record.fieldtypes import command
     D = RecordDescriptor("mut/rec", [("command", "cmd"), ("command[]", "cmds"), ("string[]", "tags"), ("varint[]", "nums"),
-                                     ("stringlist", "sl"), ("dictlist", "dl"), ("path", "p"), ("string", "s")])
+                                     ("stringlist", "sl"), ("dictlist", "dl"), ("path", "p"), ("string", "s"), ("digest", "dg")])
     H = RecordDescriptor("mut/holder", [("record", "r"), ("string", "t")])
 
     def fresh():
         return D(cmd="ls -l /tmp", cmds=["cat /x", "echo a b"], tags=["a"], nums=[1, 2], sl=["x"], dl=[{"k": 1}], p="/a", s="s",
-                 _generated=T0)
+                 dg=("d41d8cd98f00b204e9800998ecf8427e", None, "e3b0c442" * 8), _generated=T0)
 
     def mutate(r, step):
         st = type(r.tags[0]) if r.tags else str
@@ -421,6 +421,11 @@ def rewrite_after_mutation_cases(ctx):
             r.cmds.append(command("uname -a"))
         elif step == 8:
             del r.tags[0]
+        elif step == 9:
+            r.dg.sha256 = None          # a hash withdrawn in place: what is written afterwards must not carry it any more
+        elif step == 10:
+            r.dg.md5 = None
+            r.dg.sha1 = "da39a3ee5e6b4b0d3255bfef95601890afd80709"
 
     wrappers = {"plain": lambda r: r, "nested": lambda r: H(r=r, t="h", _generated=T0),
                 "grouped": lambda r: GroupedRecord("mut/grp", [r, H(r=None, t="g", _generated=T0)])}
@@ -434,7 +439,7 @@ def rewrite_after_mutation_cases(ctx):
                 import io as _io
                 buf = _io.BytesIO()
                 w = RecordStreamWriter(buf)
-                for step in range(-1, 9):
+                for step in range(-1, 11):
                     if step >= 0:
                         mutate(r, step)
                     written_obs.append(recgen.canon(recgen.obs_item(outer, True)))
@@ -457,7 +462,7 @@ def rewrite_after_mutation_cases(ctx):
                 ctx.violation("one record (%s, touched by %s between writes) written, changed in place, written again: %s" % (wname, touch, problem),
                               dict(kind="rewrite-after-mutation", wrapper=wname, touch=touch, problem=problem,
                                    steps="cmd.args.append / cmd.args[0]= / cmds[1].args.append / tags.append / nums[0]= / sl.append / "
-                                         "dl[0][k]= / cmds.append / del tags[0]"))
+                                         "dl[0][k]= / cmds.append / del tags[0] / dg.sha256=None / dg.md5=None, dg.sha1=.."))
                 return True
     return False
 
